@@ -169,6 +169,9 @@ inductive Label (V : Type)
   | cas (i : Nat) | win (i : Nat) | sendOk (i : Nat) | sendFail (i : Nat) | exitStep (i : Nat)
   -- consumer of the merged stream
   | cCall (live : Bool) | cEnd | cCtx | cClose | cCloseStep
+  /-- environment: the context of the consumer's pending `Next` expires / is cancelled while the call is
+  in progress (`inNext true → inNext false`); from then on the `ctx.Done()` arm of that `Next` is ready -/
+  | cExpire
   deriving DecidableEq, Repr
 
 def init (V : Type) (k : Nat) : St V :=
@@ -282,6 +285,10 @@ def step {V : Type} (s : St V) : Label V → Option (St V)
         some { s with cpc := .idle,
                       results := s.results ++ [match s.senderErr with | none => .endd | some e => .err e] }
       else none
+    | _ => none
+  | .cExpire =>
+    match s.cpc with
+    | .inNext true => some { s with cpc := .inNext false }
     | _ => none
   | .cCtx =>
     match s.cpc with
